@@ -572,6 +572,19 @@ class PyInterp(object):
             if a[1] == "active":
                 return self.v.live[a[0]]
             raise AnalysisError("merge table (py): bare use of %s" % pyfront.unparse(e))
+        if isinstance(e, ast.Attribute):
+            base = e.value
+            while isinstance(base, ast.Attribute):
+                base = base.value
+            if isinstance(base, ast.Name):
+                try:
+                    bv = self.lookup(base.id, fr)
+                except AnalysisError:
+                    bv = None
+                if isinstance(bv, _Sink):
+                    # the contents of the output container are inspected: the
+                    # epilogue (emptiness test) - not part of a merge step
+                    raise _Stop()
         if isinstance(e, ast.Call):
             return self.call(e, fr)
         if isinstance(e, ast.Compare) and len(e.ops) == 1:
@@ -917,9 +930,26 @@ def c_prelude(tu):
 
 
 def py_prelude(kind):
-    fn = py_merge_function(kind)
+    fn0 = py_merge_function(kind)
     findings = []
     facts = {}
+    # statements of the method with the bodies of module-level helpers called
+    # before the walk spliced in (a prelude factored out into a helper)
+    modfuncs = pyfront.functions(pyfront.base_py())
+
+    class _Flat(object):
+        pass
+    fn = _Flat()
+    fn.lineno, fn.name = fn0.lineno, fn0.name
+    fn.body = []
+    seen_loop = False
+    for st in fn0.body:
+        if isinstance(st, ast.While):
+            seen_loop = True
+        if not seen_loop and isinstance(st, (ast.Assign, ast.Expr)) and isinstance(st.value, ast.Call) \
+                and isinstance(st.value.func, ast.Name) and st.value.func.id in modfuncs:
+            fn.body.extend(x for x in modfuncs[st.value.func.id].body if not isinstance(x, ast.Return))
+        fn.body.append(st)
     first_loop = next(i for i, s in enumerate(fn.body) if isinstance(s, ast.While))
     last_loop = max(i for i, s in enumerate(fn.body) if isinstance(s, ast.While))
     g0 = g12 = g10 = carry = None
@@ -1078,7 +1108,10 @@ def c_unwrap(tu):
                     return len(v[1])
                 if c2 == ("fn", "PyTuple_GET_ITEM"):
                     v = ev(args[0])
-                    return v[1][ev(args[1])]
+                    ix = ev(args[1])
+                    if not _is_tuple(v) or not (0 <= ix < len(v[1])):
+                        raise AnalysisError("unwrap (C): item %s of %r at %s:%s" % (ix, v, e.f, e.l))
+                    return v[1][ix]
                 if c2 == ("fn", "PyType_HasFeature") or "PyTuple_Check" in text(e):
                     return int(_is_tuple(ev(args[0]))) if c2[1] != "PyType_HasFeature" else \
                         int(_is_tuple(_typeof_arg(args[0], env)))
@@ -1090,9 +1123,10 @@ def c_unwrap(tu):
                 b = strip(e.kids[0])
                 if b is not None and b.k == "MemberExpr" and b.n == "ob_item":
                     cont = _typeof_arg(b, env)
-                    if not _is_tuple(cont):
-                        raise AnalysisError("unwrap (C): item of non-tuple")
-                    return cont[1][ev(e.kids[1])]
+                    ix = ev(e.kids[1])
+                    if not _is_tuple(cont) or not (0 <= ix < len(cont[1])):
+                        raise AnalysisError("unwrap (C): item %s of %r at %s:%s" % (ix, cont, e.f, e.l))
+                    return cont[1][ix]
             raise AnalysisError("unwrap (C): unrecognised %s at %s:%s" % (text(e)[:60], e.f, e.l))
 
         def _typeof_arg(a, env2):
@@ -1116,6 +1150,39 @@ def c_unwrap(tu):
                     run(s.kids[1])
                 elif len(s.kids) > 2:
                     run(s.kids[2])
+            elif s.k == "SwitchStmt":
+                v = ev(s.kids[0])
+                body2 = s.kids[-1]
+                items = list(body2.kids) if body2.k == "CompoundStmt" else [body2]
+                # flatten  case A: case B: stmt
+                flat = []
+                for it in items:
+                    cur = it
+                    while cur.k in ("CaseStmt", "DefaultStmt"):
+                        flat.append(("case", const_int(cur.kids[0])) if cur.k == "CaseStmt" else ("default", None))
+                        cur = cur.kids[-1]
+                    flat.append(("stmt", cur))
+                start = None
+                for i2, (kind, val) in enumerate(flat):
+                    if kind == "case" and val == v:
+                        start = i2
+                        break
+                if start is None:
+                    for i2, (kind, val) in enumerate(flat):
+                        if kind == "default":
+                            start = i2
+                            break
+                if start is not None:
+                    for kind, val in flat[start:]:
+                        if kind != "stmt":
+                            continue
+                        if val.k == "BreakStmt":
+                            break
+                        run(val)
+                        if res is not None:
+                            break
+            elif s.k == "BreakStmt":
+                pass
             elif s.k == "ReturnStmt":
                 r = strip(s.kids[0])
                 if r.k == "CallExpr" and callee(r) == ("fn", "merge_error"):
